@@ -67,6 +67,7 @@ def load_all():
     except ModuleNotFoundError as e:
       if e.name != "vf.props." + m:
         raise
+  symrun.snapshot_lazy_state("ttconv")
   return _REGISTRY
 
 
